@@ -3,7 +3,7 @@
    gate's abstraction of a signed message, what Validation/HonestRound.v calls an honest item - so every one of
    them is accepted by every correct peer's validator, in any arrival order (honest_round_accepted_at_the_gate). *)
 From Coq Require Import List NArith ZArith Bool Lia.
-From SSV Require Import Qbft.Model Qbft.SyncRound Qbft.SyncGeneric Qbft.RecoverGeneric Qbft.Bridge.
+From SSV Require Import Qbft.Model Qbft.SyncRound Qbft.SyncGeneric Qbft.RecoverGeneric Qbft.RecoverPrepared Qbft.Bridge.
 From SSV Require Validation.Model Gen.ValidationConsts Validation.HonestRound.
 Import ListNotations.
 Local Open Scope N_scope.
@@ -85,7 +85,7 @@ Qed.
 (* every broadcast of every operator is an honest item of the gate *)
 Theorem round_broadcasts_are_honest_items : forall i m,
   In i (committee qc) -> In m (round_broadcasts qc h ld i) ->
-  exists t s, gate_msg fdlen true m = HR.hmsg h VC.firstRound value_name fdlen 0 t s /\ HR.honest_item sh ld (t, s).
+  exists t s, gate_msg fdlen true m = HR.hmsg h VC.firstRound value_name fdlen 0 false 0 0 t s /\ HR.honest_item sh ld (t, s).
 Proof.
   intros i m Hi Hm. unfold round_broadcasts in Hm. apply in_app_or in Hm.
   assert (Hi0 : i <> 0) by (intros ->; contradiction).
@@ -140,7 +140,7 @@ Qed.
 
 Theorem round2_broadcasts_are_honest_items : forall i m,
   In i live -> In m (round2_broadcasts qc h ld2 live i) ->
-  exists t s, gate_msg fdlen true m = HR.hmsg h 2 (value_name ld2) fdlen nrc2 t s /\ HR.honest_item sh ld2 (t, s).
+  exists t s, gate_msg fdlen true m = HR.hmsg h 2 (value_name ld2) fdlen nrc2 false 0 0 t s /\ HR.honest_item sh ld2 (t, s).
 Proof.
   intros i m Hi Hm. unfold round2_broadcasts in Hm. cbn [app] in Hm.
   assert (Hic : In i (committee qc)) by (apply Hlive; exact Hi).
@@ -162,3 +162,56 @@ Proof.
 Qed.
 
 End Gate2.
+
+(* ---- the recovery round after a PREPARED first round (C07_recovery_from_prepared_round) -------------------- *)
+
+(* round 2 of that recovery: every live operator's round change carries the value prepared in round 1 and its
+   prepares; the leader re-proposes that value with a quorum of round changes and the prepares *)
+Definition round2p_broadcasts (c : cfg) (h ld1 ld2 : N) (live : list N) (i : N) : list smsg :=
+  let v := start_value ld1 in
+  let rt := hash v in
+  [rcp h ld1 live v i] ++
+  (if ld2 =? i then [prop2p c h ld1 live ld2 (firstn (N.to_nat (quorum c)) live)] else []) ++
+  [fm2 h T_PREPARE rt i; fm2 h T_COMMIT rt i].
+
+Lemma round2p_in_prepared_bcasts : forall c h ld1 ld2 live i m,
+  In m (round2p_broadcasts c h ld1 ld2 live i) -> In m (prepared_bcasts c h ld1 ld2 live i).
+Proof.
+  intros c h ld1 ld2 live i m H. unfold prepared_bcasts. apply in_or_app. right. exact H.
+Qed.
+
+Section Gate3.
+Variables (qc : cfg) (sh : V.share) (h ld1 ld2 fdlen : N) (live : list N).
+Hypothesis Hcomm : V.s_committee sh = committee qc.
+Hypothesis Hz : ~ In 0 (committee qc).
+Hypothesis Hlive : forall y, In y live -> In y (committee qc).
+
+Definition nlive : N := N.of_nat (length live).
+
+Theorem round2p_broadcasts_are_honest_items : forall i m,
+  In i live -> In m (round2p_broadcasts qc h ld1 ld2 live i) ->
+  exists t s, gate_msg fdlen true m = HR.hmsg h 2 (value_name ld1) fdlen (nrc2 qc live) true nlive nlive t s /\
+              HR.honest_item sh ld2 (t, s).
+Proof.
+  intros i m Hi Hm. unfold round2p_broadcasts in Hm. cbn [app] in Hm.
+  assert (Hic : In i (committee qc)) by (apply Hlive; exact Hi).
+  assert (Hi0 : i <> 0) by (intros ->; contradiction).
+  assert (Hin : V.in_committee i sh = true) by (apply (in_committee_iff qc sh Hcomm); exact Hic).
+  destruct Hm as [<-|Hm].
+  - exists VC.qbftRoundChangeMsgType, i. split.
+    + unfold gate_msg, rcp, HR.hmsg, HR.carries, value_name, start_value, nlive. cbn.
+      rewrite N.eqb_refl, map_length. reflexivity.
+    + unfold HR.honest_item. repeat split; auto; discriminate.
+  - apply in_app_or in Hm. destruct Hm as [Hm|[<-|[<-|[]]]].
+    + destruct (N.eqb_spec ld2 i) as [->|]; [|destruct Hm]. destruct Hm as [<-|[]].
+      exists VC.qbftProposalMsgType, i. split.
+      * unfold gate_msg, prop2p, own_core, HR.hmsg, HR.carries, value_name, start_value, nrc2, nlive. cbn.
+        rewrite N.eqb_refl, !map_length. reflexivity.
+      * unfold HR.honest_item. repeat split; auto.
+    + exists VC.qbftPrepareMsgType, i. split; [reflexivity|].
+      unfold HR.honest_item. repeat split; auto; discriminate.
+    + exists VC.qbftCommitMsgType, i. split; [reflexivity|].
+      unfold HR.honest_item. repeat split; auto; discriminate.
+Qed.
+
+End Gate3.
